@@ -60,6 +60,13 @@ class Checker:
             self.violations.append(rec)
         return bool(ok)
 
+    def shape(self, cond, what, where=None):
+        """a precondition of a structural rule: the construct has the shape the extractor understands.  If it does not, the
+        rule cannot be evaluated - that is 'undecided', never a violation (an equivalent rewrite must not raise an alarm)"""
+        if not cond:
+            raise Undecided("unrecognised shape: " + what, where)
+        return True
+
     def attempt(self, fn, *args, **kw):
         """run one group of obligations; an Undecided in it is deferred so that violations found by the other
         groups are still reported (a violation outranks 'cannot decide' elsewhere)"""
@@ -75,8 +82,12 @@ class Checker:
             self.say("DEFER  %s" % u)
             return None
 
+    def fresh_violations(self):
+        """violations that are not listed (open) in KNOWN_FINDINGS.json"""
+        return [v for v in self.violations if self._is_known(v) is None]
+
     def raise_deferred(self):
-        if self.deferred and not self.violations:
+        if self.deferred and not self.fresh_violations():
             raise self.deferred[0]
 
     def info(self, msg):
@@ -85,7 +96,7 @@ class Checker:
 
     def floor(self, name, found, minimum):
         self.floors.append({"name": name, "found": found, "min": minimum})
-        if found < minimum and not self.violations:
+        if found < minimum and not self.fresh_violations():
             raise Undecided("instance floor not met for %s: found %d < %d confirmed by hand "
                             "(a rule matching too few sites must not pass vacuously)" % (name, found, minimum))
 
